@@ -45,28 +45,34 @@ static std::vector<std::string> fields(const std::string &t, char d, size_t max 
 static bool parse62(Mpz &v, const std::string &s) { return mpz_set_str(v, s.c_str(), TMCG_MPZ_IO_BASE) == 0; }
 
 // ---------------------------------------------------------------- keys
+// an honest proof of a statement (m, y): the answers by residue and by square -> (index of the challenge, stage)
+struct ProofRef {
+	Mpz m, y;
+	std::map<std::string, std::pair<int, int> > byres, bysq;
+};
 struct KeyCtx {
 	std::string name; unsigned long size; bool nizk;
 	TMCG_SecretKey sec; TMCG_PublicKey pub;
 	std::string sectext, pubtext, sid;
-	std::vector<std::string> nz;                 // tokens of the nizk text ("nzk", counts, answers)
-	std::map<std::string, int> byres, bysq;       // generated answers: residue / square -> index of the challenge
+	ProofRef ref;                                 // the proof made by generate()
 	size_t mnsize() const { return mpz_sizeinbase(sec.m, 2) / 8; }
 };
 static std::map<std::string, KeyCtx *> KEYS;
 
-static void index_proof(KeyCtx &K) {
-	K.nz = fields(K.pub.nizk, '^');
+// index an honest proof text (layout nzk c1 a.. c2 a.. c3 a..) of the statement (m, y)
+static void index_proof(ProofRef &R, const std::string &nizk, mpz_srcptr m, mpz_srcptr y) {
+	R.m = Mpz(mpz2s(m)); R.y = Mpz(mpz2s(y)); R.byres.clear(); R.bysq.clear();
+	std::vector<std::string> nz = fields(nizk, '^');
 	int g = 0;
-	// generated layout: nzk c1 a.. c2 a.. c3 a..
 	size_t pos = 1;
-	for (int s = 1; s <= 3 && pos < K.nz.size(); s++) {
-		unsigned long c = strtoul(K.nz[pos].c_str(), NULL, 10); pos++;
-		for (unsigned long j = 0; j < c && pos < K.nz.size() && K.nizk; j++, pos++) {
-			Mpz v, r, q; if (!parse62(v, K.nz[pos])) continue;
+	for (int s = 1; s <= 3 && pos < nz.size(); s++) {
+		unsigned long c = strtoul(nz[pos].c_str(), NULL, 10); pos++;
+		if (pos + c > nz.size()) break;           // counts without answers (key without proof)
+		for (unsigned long j = 0; j < c; j++, pos++) {
+			Mpz v, r, q; if (!parse62(v, nz[pos])) continue;
 			g++;
-			mpz_mod(r, v, K.sec.m); mpz_mul(q, r, r); mpz_mod(q, q, K.sec.m);
-			K.byres[mpz2s(r)] = g; K.bysq[mpz2s(q)] = g;
+			mpz_mod(r, v, m); mpz_mul(q, r, r); mpz_mod(q, q, m);
+			R.byres[mpz2s(r)] = std::make_pair(g, s); R.bysq[mpz2s(q)] = std::make_pair(g, s);
 		}
 	}
 }
@@ -77,7 +83,7 @@ static KeyCtx *load_key(const json &j) {
 	K->pub = TMCG_PublicKey(K->sec);
 	std::ostringstream os; os << K->pub; K->pubtext = os.str();
 	K->sid = K->pub.selfid();
-	index_proof(*K);
+	index_proof(K->ref, K->nizk ? K->pub.nizk : std::string("nzk^"), K->sec.m, K->sec.y);
 	return K;
 }
 
@@ -107,8 +113,8 @@ static KeyText split_key(const std::string &t) {
 	k.magic = f[0]; k.name = f[1]; k.email = f[2]; k.type = f[3]; k.m = f[4]; k.y = f[5]; k.nizk = f[6]; k.sig = rest; k.cut = false;
 	return k;
 }
-// projection of a presented public key text; base: the generated key the answers are compared with
-static json key_proj(const std::string &text, const KeyCtx &base) {
+// projection of a presented public key text; ref: the honest proof the answers are compared with
+static json key_proj(const std::string &text, const ProofRef &ref) {
 	KeyText k = split_key(text);
 	json P; Mpz m, y;
 	size_t total = std::count(text.begin(), text.end(), '|');
@@ -124,7 +130,7 @@ static json key_proj(const std::string &text, const KeyCtx &base) {
 	P["tnizk"] = k.type.find("NIZK") != k.type.npos;
 	P["mid"] = nid(m); P["bits"] = mpz_sizeinbase(m, 2);
 	P["did"] = did(k.name + "|" + k.email + "|" + k.type + "|" + b62(m) + "|" + b62(y) + "|" + k.nizk + "|");
-	bool same = mnum && ynum && mpz_cmp(m, base.sec.m) == 0 && mpz_cmp(y, base.sec.y) == 0;
+	bool same = mnum && ynum && mpz_cmp(m, ref.m) == 0 && mpz_cmp(y, ref.y) == 0;
 	std::vector<std::string> t = fields(k.nizk, '^');
 	P["nzmagic"] = t.size() > 0 ? t[0] : std::string("");
 	json nz = json::array();
@@ -132,13 +138,13 @@ static json key_proj(const std::string &text, const KeyCtx &base) {
 		json tok; long n = -1;
 		if (!t[j].empty() && t[j].find_first_not_of("0123456789") == t[j].npos)
 			n = t[j].size() <= 9 ? atol(t[j].c_str()) : 1073741824L;
-		tok["n"] = n; tok["i"] = 0; tok["c"] = "no";
+		tok["n"] = n; tok["i"] = 0; tok["st"] = 0; tok["c"] = "no";
 		Mpz v, r, q;
 		if (same && parse62(v, t[j])) {
 			mpz_mod(r, v, m); mpz_mul(q, r, r); mpz_mod(q, q, m);
-			std::map<std::string, int>::const_iterator it = base.byres.find(mpz2s(r));
-			if (it != base.byres.end()) { tok["i"] = it->second; tok["c"] = "eq"; }
-			else if ((it = base.bysq.find(mpz2s(q))) != base.bysq.end()) { tok["i"] = it->second; tok["c"] = "sq"; }
+			std::map<std::string, std::pair<int, int> >::const_iterator it = ref.byres.find(mpz2s(r));
+			if (it != ref.byres.end()) { tok["i"] = it->second.first; tok["st"] = it->second.second; tok["c"] = "eq"; }
+			else if ((it = ref.bysq.find(mpz2s(q))) != ref.bysq.end()) { tok["i"] = it->second.first; tok["st"] = it->second.second; tok["c"] = "sq"; }
 		}
 		nz.push_back(tok);
 	}
@@ -297,6 +303,7 @@ static json sign_event(const KeyCtx &K, const std::string &data, const std::stri
 }
 static std::string sig_value(const std::string &sig) { std::vector<std::string> f = fields(sig, '|'); return f.size() >= 3 ? f[2] : std::string(""); }
 
+static uint64_t RUNSEED = 1;
 struct Out { std::ofstream f; void emit(const json &e) { f << e.dump() << "\n"; } };
 
 // sign with salt class; "topzero": the encoded value (the square) has a zero top byte
@@ -324,7 +331,7 @@ static void gen_event(Out &out, KeyCtx &K) {
 	bool smallest = true; Mpz t(2);
 	while (mpz_cmp(t, K.sec.y) < 0) { if (mpz_jacobi(t, K.sec.p) == -1 && mpz_jacobi(t, K.sec.q) == -1) smallest = false; mpz_add_ui(t, t, 1); }
 	e["ysmallest"] = smallest;
-	e["P"] = key_proj(K.pubtext, K);
+	e["P"] = key_proj(K.pubtext, K.ref);
 	e["sid"] = codes(K.sid);
 	e["typeok"] = K.pub.type == (std::string("TMCG/RABIN_") + std::to_string(K.size) + (K.nizk ? "_NIZK" : ""));
 	TMCG_PublicKey imp;
@@ -348,10 +355,20 @@ static void gen_event(Out &out, KeyCtx &K) {
 static void run_verify(Out &out, const json &c, uint64_t seed) {
 	KeyCtx &K = *KEYS.at(c["key"]), &O = *KEYS.at(c["okey"]);
 	std::string d = data_of(c["d"]), mu = c["mu"], f = c["f"];
+	if (c["d"] == "len") { d.clear(); for (long i = 0; i < c["dlen"].get<long>(); i++) d.push_back((char)((i * 7 + 3) & 0xff)); }
 	unsigned idx = c["root"];
-	bool found; uint64_t sd = seed;
-	std::string sig = sign_class(K, d, c["salt"], sd, idx, found);
-	json se = sign_event(K, d, sig, idx, false); se["id"] = c["id"]; se["saltok"] = found; out.emit(se);
+	// one signature per object (key, data class, salt class, root) and process; its coins derive from the object
+	static std::map<std::string, std::pair<std::string, uint64_t> > made;
+	std::string okey = K.name + "/" + c["d"].get<std::string>() + std::to_string(c["dlen"].get<long>()) + "/" + c["salt"].get<std::string>() + "/" + std::to_string(idx);
+	uint64_t sd = RUNSEED * 1000003ULL; for (char ch : okey) sd = sd * 131 + (unsigned char)ch;
+	std::string sig;
+	if (made.count(okey)) { sig = made[okey].first; sd = made[okey].second; }
+	else {
+		bool found;
+		sig = sign_class(K, d, c["salt"], sd, idx, found);
+		made[okey] = std::make_pair(sig, sd);
+		json se = sign_event(K, d, sig, idx, false); se["id"] = c["id"]; se["saltok"] = found; out.emit(se);
+	}
 	std::string text = sig, foreign;
 	if (mu == "foreign") { std::string fs = do_sign(O, d, sd + 7, idx); json fe = sign_event(O, d, fs, idx, false); out.emit(fe); foreign = sig_value(fs); }
 	bool applied = false;
@@ -460,6 +477,43 @@ static void run_decrypt(Out &out, const json &c, uint64_t seed) {
 	out.emit(e);
 }
 
+// the owner's prover [GMR98, Sc98] for the statement (m, y) with c1, c2, c3 rounds: the challenges are the hash
+// chain of the library (g over "m^y" and everything derived so far), the answers come from the factorisation
+static std::string own_proof(const KeyCtx &K, mpz_srcptr y, size_t c1, size_t c2, size_t c3) {
+	const TMCG_SecretKey &S = K.sec;
+	std::string input = b62(S.m) + "^" + b62(y);
+	size_t mnsize = mpz_sizeinbase(S.m, 2) / 8;
+	std::vector<unsigned char> mn(mnsize);
+	Mpz foo, bar, t;
+	auto next = [&]() {
+		tmcg_g(mn.data(), mnsize, (unsigned char *)input.c_str(), input.length());
+		mpz_import(foo, 1, -1, mnsize, 1, 0, mn.data()); mpz_mod(foo, foo, S.m); input += b62(foo);
+	};
+	std::ostringstream nz; nz << "nzk^" << c1 << "^";
+	for (size_t i = 0; i < c1; i++) {
+		do { next(); mpz_gcd(t, foo, S.m); } while (mpz_cmp_ui(t.v, 1) != 0);
+		mpz_powm(bar, foo, S.m1pq, S.m);
+		nz << b62(bar) << "^";
+	}
+	nz << c2 << "^";
+	for (size_t i = 0; i < c2; i++) {
+		do { next(); mpz_gcd(t, foo, S.m); } while (mpz_cmp_ui(t.v, 1) != 0);
+		Mpz c[4]; mpz_set(c[0], foo); mpz_sub(c[1], S.m, foo); mpz_mul_2exp(c[2], foo, 1); mpz_mod(c[2], c[2], S.m); mpz_sub(c[3], S.m, c[2]);
+		mpz_set_ui(bar, 0);
+		for (int j = 0; j < 4; j++) if (is_square(c[j], K)) { a_root(bar, c[j], K); break; }
+		nz << b62(bar) << "^";
+	}
+	nz << c3 << "^";
+	for (size_t i = 0; i < c3; i++) {
+		do { next(); } while (mpz_jacobi(foo, S.m) != 1);
+		if (!is_square(foo, K)) { mpz_mul(foo, foo, y); mpz_mod(foo, foo, S.m); }
+		mpz_set_ui(bar, 0);
+		if (is_square(foo, K)) a_root(bar, foo, K);
+		nz << b62(bar) << "^";
+	}
+	return nz.str();
+}
+
 static const size_t R1 = TMCG_KEY_NIZK_STAGE1, R2 = TMCG_KEY_NIZK_STAGE2, R3 = TMCG_KEY_NIZK_STAGE3;
 static bool mutate_key(KeyText &k, const std::string &f, const std::string &mu, const KeyCtx &K, const KeyCtx &O) {
 	NumCtx cx; cx.K = &K;
@@ -471,6 +525,17 @@ static bool mutate_key(KeyText &k, const std::string &f, const std::string &mu, 
 		if (mu == "dropnizk") { size_t p = k.type.find("_NIZK"); if (p == k.type.npos) return false; k.type.erase(p, 5); return true; }
 		if (mu == "addnizk") { k.type += "_NIZK"; return true; }
 		return false;
+	}
+	if (f == "proof") {
+		if (!K.nizk) return false;
+		size_t c1 = R1, c2 = R2, c3 = R3;
+		if (mu == "short1") c1--; else if (mu == "short2") c2--; else if (mu == "short3") c3--; else if (mu == "one1") c1 = 1;
+		else if (mu == "long1") c1++; else if (mu == "long2") c2++; else if (mu == "long3") c3++;
+		else if (mu != "same" && mu != "newy") return false;
+		Mpz y; if (!parse62(y, k.y)) return false;
+		if (mu == "newy") { mpz_mul_2exp(y, y, 2); mpz_mod(y, y, K.sec.m); k.y = b62(y); }
+		k.nizk = own_proof(K, y, c1, c2, c3);
+		return true;
 	}
 	if (f == "m") { cx.foreign = b62(O.sec.m); return mutate_num(k.m, mu, cx); }
 	if (f == "y") return mutate_num(k.y, mu, cx);
@@ -532,6 +597,18 @@ static void run_check(Out &out, const json &c, uint64_t seed) {
 	bool resign = c["resign"];
 	KeyText k = split_key(K.pubtext);
 	bool applied = mu == "none" || f == "struct" || mutate_key(k, f, mu, K, O);
+	bool reproved = applied && f == "proof";
+	ProofRef own; long ownmatch = -1;
+	if (reproved) {
+		Mpz y; parse62(y, k.y);
+		index_proof(own, k.nizk, K.sec.m, y);
+		// the prover of the harness is only trusted as far as it reproduces the library's own proof
+		if (mu == "same") {
+			json P = key_proj(join_key(k), K.ref); size_t okc = 0;
+			for (const json &tk : P["nz"]) if (tk["c"] != "no") okc++;
+			ownmatch = (long)okc;
+		}
+	}
 	if (resign) {
 		// the owner signs the altered key again (as generation does: sign with an empty sig member, then put the new id in)
 		TMCG_SecretKey sk(K.sec);
@@ -554,7 +631,8 @@ static void run_check(Out &out, const json &c, uint64_t seed) {
 	if (f == "struct" && mu == "trunc6") text = k.magic + "|" + k.name + "|" + k.email + "|" + k.type + "|" + k.m + "|" + k.y + "|";
 	if (f == "struct" && mu == "nodelim") text = text.substr(0, text.size() - 1);
 	json e; e["e"] = "Check"; e["id"] = c["id"]; e["key"] = K.name; e["applied"] = applied; e["resign"] = resign;
-	e["P"] = key_proj(text, K);
+	e["P"] = key_proj(text, reproved ? own : K.ref);
+	if (ownmatch >= 0) { e["ownmatch"] = ownmatch; e["ownwant"] = R1 + R2 + R3; }
 	TMCG_PublicKey imp;
 	bool ok = imp.import(text);
 	e["imp"] = ok;
@@ -581,7 +659,7 @@ static int do_run(const char *keysf, const char *casesf, const char *tracef, uin
 	json r; r["e"] = "Reset"; r["seed"] = seed; out.emit(r);
 	for (const json &k : keys) if (need.count(k["name"].get<std::string>())) KEYS[k["name"]] = load_key(k);
 	for (const std::string &n : need) if (!KEYS.count(n)) { fprintf(stderr, "key %s missing\n", n.c_str()); return 2; }
-	seam::seed_harness(seed);
+	seam::seed_harness(seed); RUNSEED = seed;
 	for (auto &kv : KEYS) gen_event(out, *kv.second);
 	for (const json &c : cases) {
 		uint64_t cs = seed * 1000003ULL + c["id"].get<uint64_t>() * 7919ULL;
